@@ -29,6 +29,56 @@ let parse tok : tagged =
 
 let huge = function TF (_, s, e) -> Zar.sign s <> 0 && Zar.gt (Zar.abs e) big_exp | _ -> false
 
+
+(* ------------------------------------------------------------------ the f32 estimators of the library *)
+let w64 = Zar.of_int 64
+exception Lg_missing
+(* f32::log2 as reported by the implementation for the arguments the estimators can use *)
+let lg_of_pairs (pairs : (int * int) list) : f32 -> f32 =
+  fun x -> let b = Zar.to_int (f_to_bits x) in
+    match List.assoc_opt b pairs with Some o -> f_of_bits (Zar.of_int o) | None -> raise Lg_missing
+let rec read_pairs = function
+  | a :: b :: rest -> (int_of_string ("0x" ^ a), int_of_string ("0x" ^ b)) :: read_pairs rest
+  | _ -> []
+let f32_of_bits_float (b : int) : float = Int32.float_of_bits (Int32.of_int (if b land 0x80000000 <> 0 then b - (1 lsl 32) else b))
+(* the assumption on libm (XLog2Flocq.lg_contract), checked in double precision for the reported values:
+   the two f32 neighbours of f32::log2(n) enclose log2 n *)
+let libm_ok (pairs : (int * int) list) : bool =
+  List.for_all (fun (i, o) ->
+    let x = f32_of_bits_float i and y = f32_of_bits_float o in
+    if not (x >= 1.0 && x <= 16777216.0 && Float.is_integer x) then true
+    else
+      let nb b = f32_of_bits_float b in
+      let up = if y = 0.0 then nb 1 else if y > 0.0 then nb (o + 1) else nb (o - 1) in
+      let dn = if y = 0.0 then nb 0x80000001 else if y > 0.0 then nb (o - 1) else nb (o + 1) in
+      let t = Float.log2 x in
+      let tol = 1e-13 *. (Float.abs t +. 1.0) in
+      dn <= t +. tol && t -. tol <= up) pairs
+(* log2 of a positive integer in double precision *)
+let log2_z (n : Zar.t) : float =
+  let nb = Zar.numbits n in
+  let k = max 0 (nb - 62) in
+  Float.log2 (Zar.to_float (Zar.shift_right n k)) +. float_of_int k
+(* log2 of the magnitude of an operand and a bound of the rounding error of that number; None for zero *)
+let log2_operand = function
+  | TU z | TI z -> if Zar.sign z = 0 then None else let l = log2_z (Zar.abs z) in Some (l, 1e-14 *. (l +. 1.0))
+  | TF (b, s, e) -> if Zar.sign s = 0 then None else
+      let ls = log2_z (Zar.abs s) and p = Zar.to_float e *. log2_z b in
+      Some (ls +. p, 1e-14 *. (ls +. Float.abs p +. 1.0))
+  | TQ (n, d) -> if Zar.sign n = 0 then None else
+      let ln = log2_z (Zar.abs n) and ld = log2_z d in Some (ln -. ld, 1e-14 *. (ln +. ld +. 1.0))
+  | TP _ -> None
+let bits_s v = Printf.sprintf "%x" (Zar.to_int (f_to_bits v))
+let est_model lg = function
+  | TU z | TI z -> Some (ibig_log2_bounds lg w64 z, None)
+  | TF (b, s, e) -> Some (f_log2_bounds lg w64 b s e, (if Zar.sign s = 0 && Zar.sign e <> 0 then None else Some (digits_ub32 lg w64 w64 b s)))
+  | TQ (n, d) -> Some (q_log2_bounds lg w64 n d, None)
+  | TP _ -> None
+let size_cls x =
+  let bl v = Zar.numbits (Zar.abs v) in
+  let big = match x with TU z | TI z -> bl z > 128 | TF (_, s, _) -> bl s > 128 | TQ (n, d) -> bl n > 128 || bl d > 128 | TP _ -> false in
+  if big then "large" else "small"
+
 let c2s = function Eq -> "eq" | Lt -> "lt" | Gt -> "gt"
 let bits = function
   | None -> "010000"
@@ -104,6 +154,77 @@ let judge op args got =
              | Some m -> "asis=" ^ (if [ "ok"; hx m; "10" ] = got then "same" else "diff")
              | None -> "asis=na" in
            expect ~extra:("cls=hash-" ^ kind x ^ " " ^ asis) ("ok " ^ hx h ^ " 10") got)
+  | "est" ->
+      let x = a 0 in
+      (match got with
+       | "ok" :: lo :: hi :: dub :: _k :: rest ->
+           let pairs = read_pairs rest in
+           let cls = "cls=est-" ^ kind x ^ "-" ^ size_cls x in
+           if not (libm_ok pairs) then fail "libm-contract(one-ulp)-violated"
+           else
+             let model = (try est_model (lg_of_pairs pairs) x with Lg_missing -> None) in
+             let asis = match model with
+               | Some ((l, u), d) ->
+                   let ds = match d with Some d -> Printf.sprintf "%x" (Zar.to_int d) | None -> "-" in
+                   if bits_s l = lo && bits_s u = hi && ds = dub then "asis=same" else "asis=diff"
+               | None -> "asis=na" in
+             (* the specification: the bounds enclose the exact logarithm (double precision, with the error of that number);
+                digits_ub is not below the number of digits *)
+             let lo_f = f32_of_bits_float (int_of_string ("0x" ^ lo)) and hi_f = f32_of_bits_float (int_of_string ("0x" ^ hi)) in
+             (match log2_operand x with
+              | None -> expect ~nt:false ~extra:(cls ^ " " ^ asis) ("ok ff800000 ff800000 " ^ (match x with TF (_, s, e) when Zar.sign s = 0 && Zar.sign e <> 0 -> "-" | TF _ -> "0" | _ -> "-") ) (List.filteri (fun i _ -> i < 4) got)
+              | Some (t, err) ->
+                  let dub_ok = match x, dub with
+                    | TF (b, s, _), d when d <> "-" ->
+                        let d = int_of_string ("0x" ^ d) in
+                        (* |s| < b^d, decided exactly when the power is small, else through logarithms *)
+                        if d < 100000 then Zar.lt (Zar.abs s) (Zar.pow b d) else float_of_int d *. log2_z b > log2_z (Zar.abs s)
+                    | _ -> true in
+                  if lo_f <= t +. err && t -. err <= hi_f && dub_ok then pass ~extra:(cls ^ " " ^ asis) ()
+                  else fail (Printf.sprintf "log2_bounds-do-not-enclose-%.17g%s" t (if dub_ok then "" else "-digits_ub-too-small")))
+       | _ -> fail "ok lo hi dub k pairs")
+  | "ordf" | "absf" | "cmpf" ->
+      let x = a 0 and y = a 1 in
+      let rec split acc = function "t" :: _k :: rest -> (List.rev acc, read_pairs rest) | t :: rest -> split (t :: acc) rest | [] -> (List.rev acc, []) in
+      let (ans, pairs) = split [] got in
+      (match ans with
+       | "err" :: _ -> expect "err no-impl" ans
+       | _ ->
+      if not (libm_ok pairs) then fail "libm-contract(one-ulp)-violated"
+      else
+        let lg = lg_of_pairs pairs in
+        let cls = "cls=" ^ op ^ "-" ^ kind x ^ "x" ^ kind y in
+        let far = huge x || huge y in
+        (match op with
+         | "ordf" ->
+             (match (try ord_raw lg w64 x y with Lg_missing -> None), ord_run x y with
+              | Some m, Some m1 ->
+                  let want = if far then m1 else spec_cmp (value_of (untag x)) (value_of (untag y)) in
+                  let asis = "asis=" ^ (if split_ws (ord_answer m) = ans then "same" else "diff") in
+                  if m <> want && split_ws (ord_answer m) = ans then fail (ord_answer want ^ " f32-model-agrees-with-impl")
+                  else expect ~extra:(cls ^ " " ^ asis) (ord_answer want) ans
+              | _ -> fail "no-model")
+         | "absf" ->
+             (match (try abs_raw lg w64 x y with Lg_missing -> None), abs_run x y with
+              | Some m, Some m1 ->
+                  let want = if far then Some m1 else spec_abs_cmp (value_of (untag x)) (value_of (untag y)) in
+                  (match want with
+                   | None -> fail "spec-none"
+                   | Some wv ->
+                       let asis = "asis=" ^ (if [ "ok"; c2s m ] = ans then "same" else "diff") in
+                       expect ~extra:(cls ^ " " ^ asis) ("ok " ^ c2s wv) ans)
+              | _ -> fail "no-model")
+         | _ ->
+             (match x, y with
+              | TF (b, s1, e1), TF (_, s2, e2) ->
+                  let m = (try Some (fsame_raw lg w64 b s1 e1 s2 e2) with Lg_missing -> None) in
+                  let want = if far then Some (fsame_run b s1 e1 s2 e2) else spec_cmp (value_of (untag x)) (value_of (untag y)) in
+                  (match m, want with
+                   | Some m, Some wv ->
+                       let asis = "asis=" ^ (if [ "ok"; c2s m ] = ans then "same" else "diff") in
+                       expect ~extra:(cls ^ " " ^ asis) ("ok " ^ c2s wv) ans
+                   | _ -> fail "no-model")
+              | _ -> fail "cmp-operands")))
   | _ -> fail ("unknown-op-" ^ op)
 
 let () = serve judge
